@@ -264,6 +264,122 @@ func c09Run(w *core.W, j int, exact bool) {
 	}
 }
 
+// c09Large: complete replies of 17..40 KiB made of the common types, new owner names introduced every
+// few records (so some name first appears just below offset 16384 and is reused after it), with a
+// large OPT; sizes at and around the exact packed length and around 16384.
+func c09Large(w *core.W, j int) {
+	g := model.NewGen(w.Rng(j))
+	g.NoHuge = true
+	g.Plain = true
+	if j%2 == 1 {
+		c09LateName(w, g, j)
+		return
+	}
+	ls := commonLayouts()
+	mm := &model.Msg{ID: uint16(g.Uint(16)), Bits: 0x8000}
+	g.MakePool(3)
+	mm.Q = []model.Question{{Name: g.Name(), Type: 1, Class: 1}}
+	n := 700 + g.R.IntN(900)
+	secs := []*[]*model.Rec{&mm.An, &mm.Ns, &mm.Ar}
+	cut1, cut2 := n/3+g.R.IntN(n/3), 2*n/3+g.R.IntN(n/3)
+	for i := 0; i < n; i++ {
+		if i%(4+j%13) == 0 {
+			g.MakePool(2 + g.R.IntN(3))
+		}
+		r := g.Rec(ls[g.R.IntN(len(ls))])
+		si := 0
+		if i >= cut1 {
+			si = 1
+		}
+		if i >= cut2 {
+			si = 2
+		}
+		*secs[si] = append(*secs[si], r)
+	}
+	if j%4 != 3 {
+		pad := []int{0, 40, 300, 900}[j%4]
+		opt := &model.Rec{Owner: model.Name{}, Type: 41, Class: 4096, TTL: 0, L: model.Layouts[41]}
+		opt.Vals = []any{[]model.Opt{{Code: model.OptPadding, Data: make([]byte, pad)}}}
+		pos := g.R.IntN(len(mm.Ar) + 1)
+		mm.Ar = append(mm.Ar[:pos], append([]*model.Rec{opt}, mm.Ar[pos:]...)...)
+	}
+	for len(mm.Wire()) > 64000 {
+		mm.Ar = mm.Ar[len(mm.Ar)/3:] // the OPT stays if it is in the kept part; either way is covered
+		mm.Ns = mm.Ns[:len(mm.Ns)*2/3]
+		mm.An = mm.An[:len(mm.An)*2/3]
+	}
+	built, err := buildMsgAny(mm)
+	if err != nil {
+		return
+	}
+	built.Compress = true
+	full, err := built.Pack()
+	if err != nil {
+		return
+	}
+	w.Count("messages", 1)
+	if len(full) > 16384 {
+		w.Count("messages_over_16384", 1)
+	}
+	set := map[int]bool{len(full) - 1: true, len(full): true, len(full) + 1: true, 65535: true, 16383: true, 16384: true, 16385: true, 17000: true, len(full) - 100: true, len(full) * 3 / 4: true, 512: true}
+	var sizes []int
+	for s := range set {
+		if s >= 0 && s <= 65535 {
+			sizes = append(sizes, s)
+		}
+	}
+	sort.Ints(sizes)
+	for _, size := range sizes {
+		c09One(w, mm, size, true, "large")
+	}
+}
+
+// c09LateName: filler records bring the packed length to 16384-delta; the next owner name, first used
+// there, is (delta>0) or is not (delta<=0) a legal compression target for the 40 records that
+// follow it. delta sweeps around 0 and around the length of the OPT record.
+func c09LateName(w *core.W, g *model.Gen, j int) {
+	pad := []int{0, 100, 389}[(j/2)%3]
+	optLen := 11 + 4 + pad
+	deltas := []int{1, 2, optLen - 1, optLen, optLen + 1, optLen / 2, 0, -1, 1 + g.R.IntN(optLen+40)}
+	delta := deltas[(j/6)%len(deltas)]
+	n := (16384 - delta - 16 - 20) / 16
+	qlen := 16384 - delta - 16 - 16*n
+	lab := make([]byte, qlen-2)
+	for i := range lab {
+		lab[i] = byte('a' + i%26)
+	}
+	qname := model.Name{lab}
+	late := model.Name{[]byte("bbbbbbbbbbbbbbbbbbbbbbbbbbbbbbbbbbbbbbbbbbbbbbbbbbbbbbbbbbbb"), lab}
+	la := model.Layouts[1]
+	mm := &model.Msg{ID: uint16(g.Uint(16)), Bits: 0x8000, Q: []model.Question{{Name: qname, Type: 1, Class: 1}}}
+	for i := 0; i < n; i++ {
+		mm.An = append(mm.An, &model.Rec{Owner: qname, Type: 1, Class: 1, TTL: 300, L: la, Vals: []any{[]byte{10, 0, byte(i >> 8), byte(i)}}})
+	}
+	for i := 0; i < 40; i++ {
+		mm.Ns = append(mm.Ns, &model.Rec{Owner: late, Type: 1, Class: 1, TTL: 300, L: la, Vals: []any{[]byte{192, 0, 2, byte(i)}}})
+	}
+	opt := &model.Rec{Owner: model.Name{}, Type: 41, Class: 4096, TTL: 0, L: model.Layouts[41]}
+	opt.Vals = []any{[]model.Opt{{Code: model.OptPadding, Data: make([]byte, pad)}}}
+	mm.Ar = []*model.Rec{opt}
+	built, err := buildMsgAny(mm)
+	if err != nil {
+		w.Inconclusive("late-name-build-failed:" + err.Error())
+		return
+	}
+	built.Compress = true
+	full, err := built.Pack()
+	if err != nil {
+		w.Inconclusive("late-name-pack-failed:" + err.Error())
+		return
+	}
+	w.Count("messages", 1)
+	w.Count("late_name_messages", 1)
+	w.Cover("late_name_delta", fmt.Sprint(delta))
+	for _, size := range []int{len(full) - 17, len(full) - 1, len(full), len(full) + 1, len(full) + 500, 16384, 65535} {
+		c09One(w, mm, size, true, "late-name")
+	}
+}
+
 // c09Tsig: a reply carrying a TSIG record is left untouched.
 func c09Tsig(w *core.W, j int) {
 	g := model.NewGen(w.Rng(j))
@@ -291,12 +407,13 @@ func init() {
 		section{"common", tiered(700, 30000), func(w *core.W, j int) { c09Run(w, j, true) }},
 		section{"general", tiered(500, 20000), func(w *core.W, j int) { c09Run(w, j, false) }},
 		section{"tsig", tiered(100, 2000), c09Tsig},
+		section{"large", tiered(108, 2400), c09Large},
 	)
 	core.Register(&core.Monitor{
 		ID: "C09", Level: "exploration", Plan: plan, Run: run,
-		Rule: "replies (with/without OPT at any position in the additional section, TC preset or not, pool names shared/unshared, 0..40 records) x sizes {0,511,512,513,1232,4096,65535, the exact compressed packed length of every record prefix and +-1, the uncompressed length +-1, random}; " +
+		Rule: "replies (with/without OPT at any position in the additional section, TC preset or not, pool names shared/unshared, 0..40 records) x sizes {0,511,512,513,1232,4096,65535, the exact compressed packed length of every record prefix and +-1, the uncompressed length +-1, random}; 17..60 KiB replies with new owner names introduced throughout and a padded OPT, and replies whose filler brings a new owner name to offset 16384-delta (delta around 0 and around the OPT length) reused by 40 later records, at sizes around the exact compressed length; " +
 			"oracle from the statement: pointer-identical section prefixes, no later-section record after a drop, OPT retained once, TC == was||dropped, fits when header+question+OPT fit, nothing dropped when it fits, first dropped record would not fit (escape-free common types); " +
 			"non-trivial = distinct (message,size)",
-		MinObserved: []string{"messages", "truncations", "first_dropped_checked", "tsig_messages"},
+		MinObserved: []string{"messages", "truncations", "first_dropped_checked", "tsig_messages", "late_name_messages", "messages_over_16384"},
 	})
 }
